@@ -154,9 +154,11 @@ def _get_frame_name(region, mapping):
 def _make_meta_str(meta):
     metalist = []
     for key, val in meta.items():
-        if key == 'tag':  # can have multiple tags; value is always a list
-            metalist.append(' '.join([f'tag={_delimit_text(val)}'
-                                      for val in meta[key]]))
+        if key == 'tag':  # can have multiple tags
+            # a single tag can be given as a string
+            tags = [val] if isinstance(val, str) else val
+            metalist.append(' '.join([f'tag={_delimit_text(tag)}'
+                                      for tag in tags]))
         else:
             metalist.append(f'{key}={val}')
     return ' '.join(metalist)
